@@ -833,3 +833,185 @@ package profile
 //@   loop 4
 //@     invariant 0 <= $i && $i <= len(addrs) && p != nil && locs != nil
 //@     invariant forall k int :: 0 <= k && k < len(p.Sample) ==> p.Sample[k] != nil && len(p.Sample[k].Value) >= 1
+
+// ---- C01/C02: postDecode — id resolution after decoding. Safety for any decoded message (ids arbitrary, string
+// indices arbitrary), soundness of the resolution (a resolved reference carries the id that was referenced), and the
+// unit padding of numeric labels: every non-empty unit list is as long as the value list of its key ----
+//@ func padStringArray
+//@   ensures len(result) == ite(l <= len(arr), len(arr), l)
+//@   ensures forall i int :: 0 <= i && i < len(arr) ==> result[i] == old(arr[i])
+//@   ensures forall i int :: len(arr) <= i && i < len(result) ==> result[i] == ""
+//@ func getString
+//@   uses profile.errs
+//@   requires strng != nil
+//@   ensures err != nil ==> result1 == err && result0 == "" && *strng == old(*strng)
+//@   ensures err == nil && 0 <= old(*strng) && int(old(*strng)) < len(strings) ==> result1 == nil && result0 == strings[int(old(*strng))] && *strng == 0
+//@   ensures err == nil && !(0 <= old(*strng) && int(old(*strng)) < len(strings)) ==> result1 != nil && result0 == "" && *strng == old(*strng)
+//@ spec func sumidx(p *Profile, k int) int = ite(k <= 0, 0, sumidx(p, k - 1) + len(p.Sample[k-1].locationIDX)) decreases k
+//@ spec macro func decodedok(p *Profile) bool = p != nil
+//@   && (forall i int :: 0 <= i && i < len(p.Mapping) ==> p.Mapping[i] != nil)
+//@   && (forall i int :: 0 <= i && i < len(p.Function) ==> p.Function[i] != nil)
+//@   && (forall i int :: 0 <= i && i < len(p.Location) ==> p.Location[i] != nil)
+//@   && (forall i int :: 0 <= i && i < len(p.SampleType) ==> p.SampleType[i] != nil)
+//@   && (forall i int :: 0 <= i && i < len(p.Sample) ==> p.Sample[i] != nil)
+//@ spec macro func unitspadded(s *Sample) bool = forall k string :: has(s.NumUnit, k) && len(s.NumUnit[k]) > 0 ==> len(s.NumUnit[k]) == len(s.NumLabel[k])
+//@ spec macro func mtabok(tab []*Mapping) bool = (forall k int :: 0 <= k && k < len(tab) && tab[k] != nil ==> tab[k].ID == uint64(k))
+//@ spec macro func locsame(p *Profile) bool = len(p.Location) == old(len(p.Location)) && forall j int :: 0 <= j && j < len(p.Location) ==> p.Location[j] == old(p.Location[j])
+//@ func Profile.postDecode
+//@   requires decodedok(p)
+//@   requires fromdecoder: forall i int :: 0 <= i && i < len(p.Sample) ==> p.Sample[i].NumUnit == nil
+//@   requires distinctlocs: forall i int, j int :: 0 <= i && i < j && j < len(p.Location) ==> p.Location[i] != p.Location[j]
+//@   ensures padded: forall j int :: 0 <= j && j < len(p.Sample) ==> unitspadded(p.Sample[j])
+//@   ensures mcomplete: forall j int, k int :: 0 <= j && j < len(p.Location) && 0 <= k && k < len(p.Mapping) && p.Mapping[k].ID == old(p.Location[j].mappingIDX) ==> p.Location[j].Mapping != nil
+//@   ensures mres: forall j int :: 0 <= j && j < len(p.Location) && p.Location[j].Mapping != nil ==> p.Location[j].Mapping.ID == old(p.Location[j].mappingIDX)
+//@   requires distinctsamples: forall i int, j int :: 0 <= i && i < j && j < len(p.Sample) ==> p.Sample[i] != p.Sample[j]
+//@   ensures loclen: forall j int :: 0 <= j && j < len(p.Sample) ==> len(p.Sample[j].Location) == old(len(p.Sample[j].locationIDX)) && p.Sample[j].locationIDX == nil
+//@   loop 1
+//@     invariant mcomp: forall k int :: 0 <= k && k < $i ==> ite(p.Mapping[k].ID < uint64(len(mappingIds)), mappingIds[int(p.Mapping[k].ID)] != nil, has(mappings, p.Mapping[k].ID))
+//@     invariant decodedok(p) && mappings != nil && len(mappingIds) == len(p.Mapping) + 1
+//@     invariant mtab: mtabok(mappingIds) && (forall id uint64 :: has(mappings, id) ==> mappings[id] != nil && mappings[id].ID == id) && locsame(p)
+//@     invariant pending: forall j int :: 0 <= j && j < len(p.Location) ==> p.Location[j].mappingIDX == old(p.Location[j].mappingIDX)
+//@     invariant samesamples: len(p.Sample) == old(len(p.Sample)) && forall j int :: 0 <= j && j < len(p.Sample) ==> p.Sample[j] == old(p.Sample[j])
+//@     invariant spending: forall j int :: 0 <= j && j < len(p.Sample) ==> p.Sample[j].locationIDX == old(p.Sample[j].locationIDX)
+//@   loop 2
+//@     invariant mcomp: forall k int :: 0 <= k && k < len(p.Mapping) ==> ite(p.Mapping[k].ID < uint64(len(mappingIds)), mappingIds[int(p.Mapping[k].ID)] != nil, has(mappings, p.Mapping[k].ID))
+//@     invariant decodedok(p) && mappings != nil && len(mappingIds) == len(p.Mapping) + 1
+//@     invariant functions != nil && len(functionIds) == len(p.Function) + 1
+//@     invariant mtab: mtabok(mappingIds) && (forall id uint64 :: has(mappings, id) ==> mappings[id] != nil && mappings[id].ID == id) && locsame(p)
+//@     invariant pending: forall j int :: 0 <= j && j < len(p.Location) ==> p.Location[j].mappingIDX == old(p.Location[j].mappingIDX)
+//@     invariant ftab: forall k int :: 0 <= k && k < len(functionIds) && functionIds[k] != nil ==> functionIds[k].ID == uint64(k)
+//@     invariant fmap: forall id uint64 :: has(functions, id) ==> functions[id] != nil && functions[id].ID == id
+//@     invariant samesamples: len(p.Sample) == old(len(p.Sample)) && forall j int :: 0 <= j && j < len(p.Sample) ==> p.Sample[j] == old(p.Sample[j])
+//@     invariant spending: forall j int :: 0 <= j && j < len(p.Sample) ==> p.Sample[j].locationIDX == old(p.Sample[j].locationIDX)
+//@   loop 3
+//@     invariant mcomp: forall k int :: 0 <= k && k < len(p.Mapping) ==> ite(p.Mapping[k].ID < uint64(len(mappingIds)), mappingIds[int(p.Mapping[k].ID)] != nil, has(mappings, p.Mapping[k].ID))
+//@     invariant mres2: forall j int :: 0 <= j && j < $i ==> p.Location[j].Mapping == ite(old(p.Location[j].mappingIDX) < uint64(len(mappingIds)), mappingIds[int(old(p.Location[j].mappingIDX))], mappings[old(p.Location[j].mappingIDX)])
+//@     invariant decodedok(p) && mappings != nil && len(mappingIds) == len(p.Mapping) + 1
+//@     invariant functions != nil && len(functionIds) == len(p.Function) + 1
+//@     invariant locations != nil && len(locationIds) == len(p.Location) + 1
+//@     invariant mtab: mtabok(mappingIds) && (forall id uint64 :: has(mappings, id) ==> mappings[id] != nil && mappings[id].ID == id) && locsame(p)
+//@     invariant pending: forall j int :: $i <= j && j < len(p.Location) ==> p.Location[j].mappingIDX == old(p.Location[j].mappingIDX)
+//@     invariant mres: forall j int :: 0 <= j && j < $i && p.Location[j].Mapping != nil ==> p.Location[j].Mapping.ID == old(p.Location[j].mappingIDX)
+//@     invariant ftab: forall k int :: 0 <= k && k < len(functionIds) && functionIds[k] != nil ==> functionIds[k].ID == uint64(k)
+//@     invariant fmap: forall id uint64 :: has(functions, id) ==> functions[id] != nil && functions[id].ID == id
+//@     invariant ltab: forall k int :: 0 <= k && k < len(locationIds) && locationIds[k] != nil ==> locationIds[k].ID == uint64(k)
+//@     invariant lmap: forall id uint64 :: has(locations, id) ==> locations[id] != nil && locations[id].ID == id
+//@     invariant samesamples: len(p.Sample) == old(len(p.Sample)) && forall j int :: 0 <= j && j < len(p.Sample) ==> p.Sample[j] == old(p.Sample[j])
+//@     invariant spending: forall j int :: 0 <= j && j < len(p.Sample) ==> p.Sample[j].locationIDX == old(p.Sample[j].locationIDX)
+//@   loop 4
+//@     invariant mcomp: forall k int :: 0 <= k && k < len(p.Mapping) ==> ite(p.Mapping[k].ID < uint64(len(mappingIds)), mappingIds[int(p.Mapping[k].ID)] != nil, has(mappings, p.Mapping[k].ID))
+//@     invariant mres2: forall j int :: 0 <= j && j < $i3 + 1 ==> p.Location[j].Mapping == ite(old(p.Location[j].mappingIDX) < uint64(len(mappingIds)), mappingIds[int(old(p.Location[j].mappingIDX))], mappings[old(p.Location[j].mappingIDX)])
+//@     invariant decodedok(p) && mappings != nil && len(mappingIds) == len(p.Mapping) + 1
+//@     invariant functions != nil && len(functionIds) == len(p.Function) + 1
+//@     invariant locations != nil && len(locationIds) == len(p.Location) + 1
+//@     invariant l != nil && 0 <= $i && $i <= len(l.Line)
+//@     invariant mtab: mtabok(mappingIds) && (forall id uint64 :: has(mappings, id) ==> mappings[id] != nil && mappings[id].ID == id) && locsame(p) && l == p.Location[$i3]
+//@     invariant pending: forall j int :: $i3 < j && j < len(p.Location) ==> p.Location[j].mappingIDX == old(p.Location[j].mappingIDX)
+//@     invariant mres: forall j int :: 0 <= j && j <= $i3 && p.Location[j].Mapping != nil ==> p.Location[j].Mapping.ID == old(p.Location[j].mappingIDX)
+//@     invariant ftab: forall k int :: 0 <= k && k < len(functionIds) && functionIds[k] != nil ==> functionIds[k].ID == uint64(k)
+//@     invariant fmap: forall id uint64 :: has(functions, id) ==> functions[id] != nil && functions[id].ID == id
+//@     invariant ltab: forall k int :: 0 <= k && k < len(locationIds) && locationIds[k] != nil ==> locationIds[k].ID == uint64(k)
+//@     invariant lmap: forall id uint64 :: has(locations, id) ==> locations[id] != nil && locations[id].ID == id
+//@     invariant fzero: forall i2 int :: 0 <= i2 && i2 < $i ==> l.Line[i2].functionIDX == 0
+//@     invariant fpending: forall i2 int :: $i <= i2 && i2 < len(l.Line) ==> l.Line[i2].functionIDX == atloop(4, l.Line[i2].functionIDX)
+//@     invariant fres: forall i2 int :: 0 <= i2 && i2 < $i && atloop(4, l.Line[i2].functionIDX) != 0 ==> l.Line[i2].Function == ite(atloop(4, l.Line[i2].functionIDX) < uint64(len(functionIds)), functionIds[int(atloop(4, l.Line[i2].functionIDX))], functions[atloop(4, l.Line[i2].functionIDX)])
+//@     invariant fresid: forall i2 int :: 0 <= i2 && i2 < $i && atloop(4, l.Line[i2].functionIDX) != 0 && l.Line[i2].Function != nil ==> l.Line[i2].Function.ID == atloop(4, l.Line[i2].functionIDX)
+//@     invariant samesamples: len(p.Sample) == old(len(p.Sample)) && forall j int :: 0 <= j && j < len(p.Sample) ==> p.Sample[j] == old(p.Sample[j])
+//@     invariant spending: forall j int :: 0 <= j && j < len(p.Sample) ==> p.Sample[j].locationIDX == old(p.Sample[j].locationIDX)
+//@   loop 5
+//@     invariant mcomp: forall k int :: 0 <= k && k < len(p.Mapping) ==> ite(p.Mapping[k].ID < uint64(len(mappingIds)), mappingIds[int(p.Mapping[k].ID)] != nil, has(mappings, p.Mapping[k].ID))
+//@     invariant mres2: forall j int :: 0 <= j && j < len(p.Location) ==> p.Location[j].Mapping == ite(old(p.Location[j].mappingIDX) < uint64(len(mappingIds)), mappingIds[int(old(p.Location[j].mappingIDX))], mappings[old(p.Location[j].mappingIDX)])
+//@     invariant decodedok(p) && locations != nil && len(locationIds) == len(p.Location) + 1
+//@     invariant mres: locsame(p) && forall j int :: 0 <= j && j < len(p.Location) && p.Location[j].Mapping != nil ==> p.Location[j].Mapping.ID == old(p.Location[j].mappingIDX)
+//@     invariant ltab: forall k int :: 0 <= k && k < len(locationIds) && locationIds[k] != nil ==> locationIds[k].ID == uint64(k)
+//@     invariant lmap: forall id uint64 :: has(locations, id) ==> locations[id] != nil && locations[id].ID == id
+//@     invariant samesamples: len(p.Sample) == old(len(p.Sample)) && forall j int :: 0 <= j && j < len(p.Sample) ==> p.Sample[j] == old(p.Sample[j])
+//@     invariant spending: forall j int :: 0 <= j && j < len(p.Sample) ==> p.Sample[j].locationIDX == old(p.Sample[j].locationIDX)
+//@   loop 6
+//@     invariant mcomp: forall k int :: 0 <= k && k < len(p.Mapping) ==> ite(p.Mapping[k].ID < uint64(len(mappingIds)), mappingIds[int(p.Mapping[k].ID)] != nil, has(mappings, p.Mapping[k].ID))
+//@     invariant mres2: forall j int :: 0 <= j && j < len(p.Location) ==> p.Location[j].Mapping == ite(old(p.Location[j].mappingIDX) < uint64(len(mappingIds)), mappingIds[int(old(p.Location[j].mappingIDX))], mappings[old(p.Location[j].mappingIDX)])
+//@     invariant decodedok(p) && locations != nil && len(locationIds) == len(p.Location) + 1
+//@     invariant numLocations >= 0 && (len(p.Location) == 0 || !fresh(p.Location)) && (len(p.Sample) == 0 || !fresh(p.Sample)) && (len(p.Mapping) == 0 || !fresh(p.Mapping))
+//@     invariant mres: locsame(p) && forall j int :: 0 <= j && j < len(p.Location) && p.Location[j].Mapping != nil ==> p.Location[j].Mapping.ID == old(p.Location[j].mappingIDX)
+//@     invariant ltab: forall k int :: 0 <= k && k < len(locationIds) && locationIds[k] != nil ==> locationIds[k].ID == uint64(k)
+//@     invariant lmap: forall id uint64 :: has(locations, id) ==> locations[id] != nil && locations[id].ID == id
+//@     invariant samesamples: len(p.Sample) == old(len(p.Sample)) && forall j int :: 0 <= j && j < len(p.Sample) ==> p.Sample[j] == old(p.Sample[j])
+//@     invariant spending: forall j int :: 0 <= j && j < len(p.Sample) ==> p.Sample[j].locationIDX == old(p.Sample[j].locationIDX)
+//@     invariant sum: 0 <= $i && $i <= len(p.Sample) && forall n int :: n == $i ==> numLocations == old(sumidx(p, n))
+//@     invariant mono: forall k int :: 0 <= k && k <= $i ==> old(sumidx(p, k)) <= numLocations
+//@   loop 7
+//@     invariant mcomp: forall k int :: 0 <= k && k < len(p.Mapping) ==> ite(p.Mapping[k].ID < uint64(len(mappingIds)), mappingIds[int(p.Mapping[k].ID)] != nil, has(mappings, p.Mapping[k].ID))
+//@     invariant mres2: forall j int :: 0 <= j && j < len(p.Location) ==> p.Location[j].Mapping == ite(old(p.Location[j].mappingIDX) < uint64(len(mappingIds)), mappingIds[int(old(p.Location[j].mappingIDX))], mappings[old(p.Location[j].mappingIDX)])
+//@     invariant mres: locsame(p) && forall j int :: 0 <= j && j < len(p.Location) && p.Location[j].Mapping != nil ==> p.Location[j].Mapping.ID == old(p.Location[j].mappingIDX)
+//@     invariant decodedok(p) && locations != nil && len(locationIds) == len(p.Location) + 1
+//@     invariant fresh(locBuffer) && (len(p.Location) == 0 || !fresh(p.Location)) && (len(p.Sample) == 0 || !fresh(p.Sample))
+//@     invariant padded: forall j int :: 0 <= j && j < len(p.Sample) ==> unitspadded(p.Sample[j])
+//@     invariant ltab: forall k int :: 0 <= k && k < len(locationIds) && locationIds[k] != nil ==> locationIds[k].ID == uint64(k)
+//@     invariant lmap: forall id uint64 :: has(locations, id) ==> locations[id] != nil && locations[id].ID == id
+//@     invariant samesamples: len(p.Sample) == old(len(p.Sample)) && forall j int :: 0 <= j && j < len(p.Sample) ==> p.Sample[j] == old(p.Sample[j])
+//@     invariant spending: forall j int :: $i <= j && j < len(p.Sample) ==> p.Sample[j].locationIDX == old(p.Sample[j].locationIDX)
+//@     invariant loclen: forall j int :: 0 <= j && j < $i ==> len(p.Sample[j].Location) == old(len(p.Sample[j].locationIDX)) && p.Sample[j].locationIDX == nil
+//@     invariant sep: !same_array(locBuffer, locationIds)
+//@     invariant buf: 0 <= $i && $i <= len(p.Sample) && forall n int :: n == $i ==> len(locBuffer) == old(sumidx(p, len(p.Sample))) - old(sumidx(p, n))
+//@     invariant mono7: forall k int :: 0 <= k && k <= len(p.Sample) ==> old(sumidx(p, k)) <= old(sumidx(p, len(p.Sample)))
+//@   loop 8
+//@     invariant mcomp: forall k int :: 0 <= k && k < len(p.Mapping) ==> ite(p.Mapping[k].ID < uint64(len(mappingIds)), mappingIds[int(p.Mapping[k].ID)] != nil, has(mappings, p.Mapping[k].ID))
+//@     invariant mres2: forall j int :: 0 <= j && j < len(p.Location) ==> p.Location[j].Mapping == ite(old(p.Location[j].mappingIDX) < uint64(len(mappingIds)), mappingIds[int(old(p.Location[j].mappingIDX))], mappings[old(p.Location[j].mappingIDX)])
+//@     invariant mres: locsame(p) && forall j int :: 0 <= j && j < len(p.Location) && p.Location[j].Mapping != nil ==> p.Location[j].Mapping.ID == old(p.Location[j].mappingIDX)
+//@     invariant labels != nil && numLabels != nil && numUnits != nil && s != nil
+//@     invariant decodedok(p) && locations != nil && len(locationIds) == len(p.Location) + 1
+//@     invariant fresh(locBuffer) && (len(p.Location) == 0 || !fresh(p.Location)) && (len(p.Sample) == 0 || !fresh(p.Sample))
+//@     invariant others: forall j int :: 0 <= j && j < len(p.Sample) ==> p.Sample[j].NumUnit != numUnits && p.Sample[j].NumUnit != labels && p.Sample[j].NumLabel != numLabels
+//@     invariant padded_others: forall j int :: 0 <= j && j < len(p.Sample) ==> unitspadded(p.Sample[j])
+//@     invariant units_short: forall k string :: has(numUnits, k) ==> len(numUnits[k]) <= len(numLabels[k])
+//@     invariant ltab: forall k int :: 0 <= k && k < len(locationIds) && locationIds[k] != nil ==> locationIds[k].ID == uint64(k)
+//@     invariant lmap: forall id uint64 :: has(locations, id) ==> locations[id] != nil && locations[id].ID == id
+//@     invariant samesamples: len(p.Sample) == old(len(p.Sample)) && forall j int :: 0 <= j && j < len(p.Sample) ==> p.Sample[j] == old(p.Sample[j])
+//@     invariant spending: forall j int :: $i7 <= j && j < len(p.Sample) ==> p.Sample[j].locationIDX == old(p.Sample[j].locationIDX)
+//@     invariant loclen: forall j int :: 0 <= j && j < $i7 ==> len(p.Sample[j].Location) == old(len(p.Sample[j].locationIDX)) && p.Sample[j].locationIDX == nil
+//@     invariant cur: s == p.Sample[$i7] && 0 <= $i7 && $i7 < len(p.Sample)
+//@     invariant sep: !same_array(locBuffer, locationIds)
+//@   loop 9
+//@     invariant mcomp: forall k int :: 0 <= k && k < len(p.Mapping) ==> ite(p.Mapping[k].ID < uint64(len(mappingIds)), mappingIds[int(p.Mapping[k].ID)] != nil, has(mappings, p.Mapping[k].ID))
+//@     invariant mres2: forall j int :: 0 <= j && j < len(p.Location) ==> p.Location[j].Mapping == ite(old(p.Location[j].mappingIDX) < uint64(len(mappingIds)), mappingIds[int(old(p.Location[j].mappingIDX))], mappings[old(p.Location[j].mappingIDX)])
+//@     invariant mres: locsame(p) && forall j int :: 0 <= j && j < len(p.Location) && p.Location[j].Mapping != nil ==> p.Location[j].Mapping.ID == old(p.Location[j].mappingIDX)
+//@     invariant labels != nil && numLabels != nil && numUnits != nil && s != nil
+//@     invariant decodedok(p) && locations != nil && len(locationIds) == len(p.Location) + 1
+//@     invariant fresh(locBuffer) && (len(p.Location) == 0 || !fresh(p.Location)) && (len(p.Sample) == 0 || !fresh(p.Sample))
+//@     invariant others: forall j int :: 0 <= j && j < len(p.Sample) ==> p.Sample[j].NumUnit != numUnits && (p.Sample[j] != s ==> p.Sample[j].NumLabel != numLabels)
+//@     invariant padded_others: forall j int :: 0 <= j && j < len(p.Sample) && p.Sample[j] != s ==> unitspadded(p.Sample[j])
+//@     invariant units_short: forall k string :: has(numUnits, k) ==> len(numUnits[k]) <= len(numLabels[k])
+//@     invariant padded: forall k string :: visited(k) && len(numUnits[k]) > 0 ==> len(numUnits[k]) == len(numLabels[k])
+//@     invariant samedom: forall k string :: has(numUnits, k) ==> atloop(9, has(numUnits, k))
+//@     invariant ltab: forall k int :: 0 <= k && k < len(locationIds) && locationIds[k] != nil ==> locationIds[k].ID == uint64(k)
+//@     invariant lmap: forall id uint64 :: has(locations, id) ==> locations[id] != nil && locations[id].ID == id
+//@     invariant samesamples: len(p.Sample) == old(len(p.Sample)) && forall j int :: 0 <= j && j < len(p.Sample) ==> p.Sample[j] == old(p.Sample[j])
+//@     invariant spending: forall j int :: $i7 <= j && j < len(p.Sample) ==> p.Sample[j].locationIDX == old(p.Sample[j].locationIDX)
+//@     invariant loclen: forall j int :: 0 <= j && j < $i7 ==> len(p.Sample[j].Location) == old(len(p.Sample[j].locationIDX)) && p.Sample[j].locationIDX == nil
+//@     invariant cur: s == p.Sample[$i7] && 0 <= $i7 && $i7 < len(p.Sample)
+//@     invariant sep: !same_array(locBuffer, locationIds)
+//@   loop 10
+//@     invariant mcomp: forall k int :: 0 <= k && k < len(p.Mapping) ==> ite(p.Mapping[k].ID < uint64(len(mappingIds)), mappingIds[int(p.Mapping[k].ID)] != nil, has(mappings, p.Mapping[k].ID))
+//@     invariant mres2: forall j int :: 0 <= j && j < len(p.Location) ==> p.Location[j].Mapping == ite(old(p.Location[j].mappingIDX) < uint64(len(mappingIds)), mappingIds[int(old(p.Location[j].mappingIDX))], mappings[old(p.Location[j].mappingIDX)])
+//@     invariant mres: locsame(p) && forall j int :: 0 <= j && j < len(p.Location) && p.Location[j].Mapping != nil ==> p.Location[j].Mapping.ID == old(p.Location[j].mappingIDX)
+//@     invariant decodedok(p) && locations != nil && len(locationIds) == len(p.Location) + 1 && s != nil
+//@     invariant fresh(locBuffer) && fresh(s.Location) && (len(p.Location) == 0 || !fresh(p.Location)) && (len(p.Sample) == 0 || !fresh(p.Sample))
+//@     invariant 0 <= $i && $i <= len(s.locationIDX) && len(s.Location) == len(s.locationIDX)
+//@     invariant padded: forall j int :: 0 <= j && j < len(p.Sample) ==> unitspadded(p.Sample[j])
+//@     invariant ltab: forall k int :: 0 <= k && k < len(locationIds) && locationIds[k] != nil ==> locationIds[k].ID == uint64(k)
+//@     invariant lmap: forall id uint64 :: has(locations, id) ==> locations[id] != nil && locations[id].ID == id
+//@     invariant samesamples: len(p.Sample) == old(len(p.Sample)) && forall j int :: 0 <= j && j < len(p.Sample) ==> p.Sample[j] == old(p.Sample[j])
+//@     invariant spending: forall j int :: $i7 <= j && j < len(p.Sample) ==> p.Sample[j].locationIDX == old(p.Sample[j].locationIDX)
+//@     invariant loclen: forall j int :: 0 <= j && j < $i7 ==> len(p.Sample[j].Location) == old(len(p.Sample[j].locationIDX)) && p.Sample[j].locationIDX == nil
+//@     invariant cur: s == p.Sample[$i7] && 0 <= $i7 && $i7 < len(p.Sample)
+//@     invariant sres: forall i2 int :: 0 <= i2 && i2 < $i ==> s.Location[i2] == ite(s.locationIDX[i2] < uint64(len(locationIds)), locationIds[int(s.locationIDX[i2])], locations[s.locationIDX[i2]])
+//@     invariant sresid: forall i2 int :: 0 <= i2 && i2 < $i && s.Location[i2] != nil ==> s.Location[i2].ID == s.locationIDX[i2]
+//@     invariant sep: !same_array(locBuffer, locationIds)
+//@     invariant sep2: !same_array(s.Location, locationIds)
+//@   loop 11
+//@     invariant mcomp: forall k int :: 0 <= k && k < len(p.Mapping) ==> ite(p.Mapping[k].ID < uint64(len(mappingIds)), mappingIds[int(p.Mapping[k].ID)] != nil, has(mappings, p.Mapping[k].ID))
+//@     invariant mres2: forall j int :: 0 <= j && j < len(p.Location) ==> p.Location[j].Mapping == ite(old(p.Location[j].mappingIDX) < uint64(len(mappingIds)), mappingIds[int(old(p.Location[j].mappingIDX))], mappings[old(p.Location[j].mappingIDX)])
+//@     invariant p != nil
+//@     invariant mres: locsame(p) && forall j int :: 0 <= j && j < len(p.Location) && p.Location[j].Mapping != nil ==> p.Location[j].Mapping.ID == old(p.Location[j].mappingIDX)
+//@     invariant samesamples: len(p.Sample) == old(len(p.Sample)) && forall j int :: 0 <= j && j < len(p.Sample) ==> p.Sample[j] == old(p.Sample[j])
+//@     invariant loclen: forall j int :: 0 <= j && j < len(p.Sample) ==> len(p.Sample[j].Location) == old(len(p.Sample[j].locationIDX)) && p.Sample[j].locationIDX == nil
